@@ -1219,7 +1219,7 @@ def plain_snippet(case):
             return "(%s)" % cp(p["cell"][1], "r[%d]" % cols.index(p["cell"][0]))
         k = "or" if "or" in p else "and"
         return "(%s %s %s)" % (rp(p[k][0], cols), k, rp(p[k][1], cols))
-    out = ["import sys; sys.path.insert(0, '/repo')", "from coba.results.core import Table, Missing", ""]
+    out = ["import os, sys; sys.path.insert(0, os.environ.get('COBA_REPO', '/repo'))", "from coba.results.core import Table, Missing", ""]
     init = case["init"]
     if init["kind"] == "columns":
         out.append("t0 = Table(columns=%r)" % (list(init["columns"]),))
